@@ -88,13 +88,13 @@ def units(tier, seed):
     shapes = [e for e in shapes_h1() + shapes_h2() if any(v in POP_ENGINES or v.startswith("CMA") for v in e)]
     if tier == "thorough":
         shapes += [e for e in shapes_h3_cover() if any(v in POP_ENGINES for v in e)]
-    objs = ("sphere_in", "plateau", "const", "twofunnel")
+    objs = ("sphere_in", "plateau", "const", "twofunnel", "tiny_offset")
     k = 0
     for eng in shapes:
         for mx in (False, True):
             for gens in (1, 3):
                 k += 1
-                descs.append(dict(engines=list(eng), gens=gens, obj=objs[k % 4], maximize=mx, Mh=3, seed=s, kelites=1 + k % 2, pmut=(1.0, 0.5)[(k // 2) % 2],
+                descs.append(dict(engines=list(eng), gens=gens, obj=objs[k % 5], maximize=mx, Mh=3, seed=s, kelites=1 + k % 2, pmut=(1.0, 0.5)[(k // 2) % 2], observing_gsc=bool((k // 3) % 2),
                                   sprout={"kind": ("simple", "nbc")[(k // 4) % 2], "L": 2}))
     us = [{"kind": "run", "descs": c} for c in chunks(descs, 30)]
     ops = []
